@@ -8,16 +8,20 @@ S == 64
 VARIABLES sh, l
 vars == <<sh, l>>
 
+\* e.slen / e.scen: the error the property grants (1e-9 of the coordinate magnitude) in the units of the recorded length
+\* (1/256 lattice unit) and centroid (1/1024); zero unless the image is a tiny one at a large offset
+InSpanS(g,k,n,s) == LET V == Ords(g, k) IN (\E v \in V : 1024 * v <= n + 2 + s) /\ (\E v \in V : n - 2 - s <= 1024 * v)
+CNearS(n,num,den,s) == Abs(n*den - num*1024) <= (2 + s)*Abs(den)
 CheckCentroid(e,g) ==
   IF IsEmptyG(g) THEN (IF e.cempty THEN "ok" ELSE "centroid-nonempty-for-empty")
   ELSE IF e.cempty THEN "centroid-empty"
-  ELSE IF ~(InSpan(g, 1, e.cx) /\ InSpan(g, 2, e.cy)) THEN "centroid-outside-the-span-of-the-vertices"
+  ELSE IF ~(InSpanS(g, 1, e.cx, e.scen) /\ InSpanS(g, 2, e.cy, e.scen)) THEN "centroid-outside-the-span-of-the-vertices"
   ELSE LET c == IF Len(g.areas) > 0 THEN ArealCentroid(g)
                 ELSE IF Len(g.lines) > 0 THEN (IF LinealExact(g) THEN LinealCentroid(g) ELSE <<0,0,0>>)
                 ELSE PointCentroid(g) IN
-       IF c[3] = 0 THEN (IF Len(g.areas) = 0 /\ Len(g.lines) > 0 /\ ~(LinealBracket(g, 1, e.cx) /\ LinealBracket(g, 2, e.cy))
+       IF c[3] = 0 THEN (IF e.scen = 0 /\ Len(g.areas) = 0 /\ Len(g.lines) > 0 /\ ~(LinealBracket(g, 1, e.cx) /\ LinealBracket(g, 2, e.cy))
                          THEN "centroid-outside-bracket" ELSE "ok")
-       ELSE IF CNear(e.cx, c[1], c[3]) /\ CNear(e.cy, c[2], c[3]) THEN "ok" ELSE "centroid-value"
+       ELSE IF CNearS(e.cx, c[1], c[3], e.scen) /\ CNearS(e.cy, c[2], c[3], e.scen) THEN "ok" ELSE "centroid-value"
 
 \* A valid triangle k ulps wide (fam_sliver.go): exact centroid (a + k*ulp/3, y0 + h/3); the event carries the
 \* deviation from (a, y0 + h/3) in ulps of a, and 1e-9 * a is 4503599 ulps of a = 2^e.
@@ -35,11 +39,11 @@ Check(e) ==
   IF e.panic # "" THEN "panic"
   ELSE IF ~PartsValid(e.g) THEN "skip:invalid"
   ELSE LET g == Merge(e.g) IN
-  IF e.area2 # Area2(g) THEN "area"
-  ELSE IF Orient(g) # 0 /\ e.sarea2 # Orient(g)*Area2(g) THEN "signed-area"
-  ELSE IF e.area2t # e.ts*e.ts*Area2(g) THEN "area-with-transform"
+  IF ~e.noarea /\ e.area2 # Area2(g) THEN "area"
+  ELSE IF ~e.noarea /\ Orient(g) # 0 /\ e.sarea2 # Orient(g)*Area2(g) THEN "signed-area"
+  ELSE IF ~e.noarea /\ e.area2t # e.ts*e.ts*Area2(g) THEN "area-with-transform"
   \* (in a general-position float image a length that is an exact multiple of 1/256 may come out one unit lower)
-  ELSE IF ~(LenLo(g) - (IF e.gp THEN 1 ELSE 0) <= e.lenn /\ e.lenn <= LenHi(g)) THEN "length"
+  ELSE IF ~(LenLo(g) - (IF e.gp THEN 1 ELSE 0) - e.slen <= e.lenn /\ e.lenn <= LenHi(g) + e.slen) THEN "length"
   ELSE CheckCentroid(e,g)
 
 Init == sh \in 1..S /\ l = sh
